@@ -1,5 +1,6 @@
 //! vharness: correspondence between /repo (linked in-process with `verif-hooks`) and the Lean
 //! model driver, plus per-property oracles used to search for replays (DESIGN.md §4.2, §5).
+mod c01;
 mod c02;
 mod c03;
 mod c08;
@@ -18,6 +19,7 @@ mod c20;
 mod ctl;
 mod driver;
 mod expat;
+mod frontends;
 mod xmlgen;
 mod geom;
 mod report;
@@ -27,6 +29,9 @@ mod util;
 use report::Report;
 
 fn main() {
+    if frontends::child_main() {
+        return;
+    }
     let args: Vec<String> = std::env::args().collect();
     let mut prop = String::new();
     let mut tier = "quick".to_string();
@@ -50,6 +55,7 @@ fn main() {
     if let Some(path) = &replay {
         let v: serde_json::Value = std::fs::read_to_string(path).ok().and_then(|t| serde_json::from_str(&t).ok()).unwrap_or(serde_json::Value::Null);
         match prop.as_str() {
+            "C01" => c01::replay(&mut rep, &v),
             "C09" => c09::replay(&mut rep, &v),
             "C10" => c10::replay(&mut rep, &v),
             "C14" => c14::replay(&mut rep, &v),
@@ -63,6 +69,7 @@ fn main() {
         return;
     }
     let r = match prop.as_str() {
+        "C01" => c01::run(&mut rep, &tier, seed),
         "C02" => c02::run_c02(&mut rep, &tier, seed),
         "C03" => c03::run(&mut rep, &tier, seed),
         "C05" => c02::run_c05(&mut rep, &tier, seed),
